@@ -366,7 +366,50 @@ def gen_versions() -> str:
     return out
 
 
+def gen_consts() -> str:
+    """Timing constants of the request/response correlator (send_message.py)."""
+    path = "protocol/messages/send_message.py"
+    tree = read(path)
+    fn = find_def(tree, "_await_response")
+    names = [a.arg for a in fn.args.args]
+    if "sub_timeout" not in names or fn.args.kwonlyargs or fn.args.vararg or fn.args.kwarg:
+        raise TranslateError("_await_response: signature differs from template", fn)
+    defaults = dict(zip(names[len(names) - len(fn.args.defaults):], fn.args.defaults))
+    d = defaults.get("sub_timeout")
+    if not isinstance(d, ast.Constant) or isinstance(d.value, bool) or not isinstance(d.value, (int, float)):
+        raise TranslateError("_await_response: sub_timeout default is not a numeric literal", fn)
+    ticks = d.value * 100
+    if ticks != int(ticks) or ticks <= 0:
+        raise TranslateError("_await_response: sub_timeout is not a positive multiple of 10 ms", fn)
+    # sub_timeout must not be reassigned and must be what the inner fail_after uses
+    inner = 0
+    for node in ast.walk(fn):
+        if isinstance(node, ast.Name) and node.id == "sub_timeout" and isinstance(node.ctx, ast.Store):
+            raise TranslateError("_await_response: sub_timeout reassigned", node)
+        if isinstance(node, ast.Call) and isinstance(node.func, ast.Attribute) and node.func.attr in ("fail_after", "move_on_after"):
+            if len(node.args) == 1 and isinstance(node.args[0], ast.Name) and node.args[0].id == "sub_timeout" \
+                    and node.func.attr == "fail_after":
+                inner += 1
+            else:
+                raise TranslateError("_await_response: unexpected timeout scope", node)
+    if inner != 1:
+        raise TranslateError("_await_response: expected exactly one fail_after(sub_timeout)", fn)
+    # the public entry point must not override it
+    sm = [n for n in tree.body if isinstance(n, ast.AsyncFunctionDef) and n.name == "send_message"]
+    if len(sm) != 1:
+        raise TranslateError("send_message not found")
+    for node in ast.walk(sm[0]):
+        if isinstance(node, ast.Call) and isinstance(node.func, ast.Name) and node.func.id == "_await_response":
+            if any(k.arg in (None, "sub_timeout") for k in node.keywords) or len(node.args) > 2:
+                raise TranslateError("send_message passes sub_timeout explicitly", node)
+    out = HEADER.format(src=path)
+    out += "(* polling interval of _await_response in ticks of 10 ms *)\n"
+    out += f"Definition sub_timeout_ticks : Z := {zlit(int(ticks))}.\n"
+    return out
+
+
 GEN_FILES = {
+    "ConstsGen.v": gen_consts,
     "ErrorsGen.v": gen_errors,
     "BatchingGen.v": gen_batching,
     "VersionsGen.v": gen_versions,
